@@ -199,6 +199,20 @@ def call(fn, *args):
     return val, None
 
 
+# parameter names of the five indicators in the order of the PRISTINE signatures (gen.py, read once and hard-coded: a changed
+# tree must not redefine the expected order).  None of them has a parameter with a default value.
+PRISTINE_ORDER = {"MAC": ("phi_X", "phi_A"), "MSF": ("phi_1", "phi_2"), "MPC": ("phi",), "MPD": ("phi",), "MCF": ("phi",)}
+
+
+def call_kw(fn, **kw):
+    """(value, None) or (None, exception) of a call by keyword, default numeric state only."""
+    try:
+        with np.errstate(all="ignore"):
+            return fn(**kw), None
+    except Exception as e:  # noqa: BLE001
+        return None, e
+
+
 def witness(phi):
     """second right-singular vector of [Re, Im] (own SVD call, not pyoma2's) and the relative singular-value gap."""
     D = np.c_[phi.real, phi.imag]
@@ -872,8 +886,118 @@ class Runner:
 
         self.job(expr, cb)
 
+    # ---- call forms: every indicator is called fully positionally in the parameter order of the pristine signature AND by
+    # keyword with the pristine parameter names; both must give the same answer (bit-equal) and that answer must satisfy the
+    # property.  The inputs make a misbound argument visible: MAC between sets of DIFFERENT sizes (a swap transposes the
+    # result), MSF(v, r v) with |r| well away from 1 (a swap gives 1/r), general MSF pairs (direction of the quotient).
+    def both_forms(self, fnm, args, case, what):
+        ctx = self.ctx
+        fn, names = getattr(gen, fnm), PRISTINE_ORDER[fnm]
+        sig = ", ".join(names)
+        p, ep = call_plain(fn, *args)
+        k, ek = call_kw(fn, **dict(zip(names, args)))
+        if ep is not None:
+            ctx.fail("oracle", "gen.%s(%s) called positionally in the documented order (%s) raised %s: %s"
+                     % (fnm, what, sig, type(ep).__name__, str(ep)[:80]), case, key="C18:%s:positional-call" % fnm)
+            return None
+        if ek is not None:
+            ctx.fail("oracle", "gen.%s(%s) called by keyword with the documented parameter names (%s) raised %s: %s"
+                     % (fnm, what, sig, type(ek).__name__, str(ek)[:80]), case, key="C18:%s:keyword-call" % fnm)
+            return p
+        a, b = np.asarray(p), np.asarray(k)
+        if a.shape != b.shape or not np.array_equal(a, b, equal_nan=True):
+            ctx.fail("oracle", "gen.%s(%s): the positional call in the documented order (%s) returns %s but the keyword call %s"
+                     % (fnm, what, sig, np.array2string(a, threshold=8), np.array2string(b, threshold=8)), case,
+                     key="C18:%s:positional-call" % fnm)
+        return p
+
+    def callforms(self, case):
+        ctx = self.ctx
+        Ambient.case = case
+        X, A = uncmat(case["X"]), uncmat(case["A"])
+        r = np.asarray(case["r"], dtype=float)
+        c = complex(*case["c"])
+        y = uncv(case["y"])
+        n, mX, mA = X.shape[0], X.shape[1], A.shape[1]
+        ctx.count(case, nontrivial=mX != mA)
+        ctx.hist("callforms.mac", "%dx%d|%dx%d" % (X.shape + A.shape))
+        T = TOL
+
+        def pairwise(P, Q):
+            return np.array([[abs(np.vdot(P[:, i], Q[:, j])) ** 2 / (np.vdot(P[:, i], P[:, i]).real * np.vdot(Q[:, j], Q[:, j]).real)
+                              for j in range(Q.shape[1])] for i in range(P.shape[1])])
+
+        # MAC(phi_X, phi_A): one row per shape of the first argument, one column per shape of the second
+        for what, P, Q, shp in (("X %dx%d, A %dx%d" % (n, mX, n, mA), X, A, (mX, mA)),
+                                ("x 1-D, A %dx%d" % (n, mA), X[:, 0], A, (1, mA)),
+                                ("X %dx%d, a 1-D" % (n, mX), X, A[:, 0], (mX, 1))):
+            M = self.both_forms("MAC", (P, Q), case, what)
+            if M is None:
+                continue
+            M = np.asarray(M)
+            if shp == (1, 1) and M.shape == ():
+                M = M.reshape(1, 1)
+            if M.shape != shp:
+                ctx.fail("oracle", "gen.MAC(%s) has shape %s, property says one row per shape of the first set and one column per shape of the second: %s"
+                         % (what, M.shape, shp), case, key="C18:MAC:shape")
+                continue
+            D = pairwise(P if P.ndim == 2 else P[:, None], Q if Q.ndim == 2 else Q[:, None])
+            if not finite(M) or M.min() < -T or M.max() > 1 + T or np.abs(M - D).max() > T:
+                ctx.fail("oracle", "gen.MAC(%s) is not |x_i^H a_j|^2 / ((x_i^H x_i)(a_j^H a_j)) in [0,1]" % what, case, key="C18:MAC:definition")
+        # MSF(phi_1, phi_2): the real factor taking the FIRST argument to the second
+        S = self.both_forms("MSF", (X, X * r[None, :]), case, "X, X diag(r)")
+        if S is not None:
+            S = np.asarray(S)
+            if S.shape != (mX,) or not finite(S) or (np.abs(S - r) > (T + 1e-9) * np.maximum(1.0, np.abs(r))).any():
+                ctx.fail("oracle", "gen.MSF(X, X diag(r)) = %r, property says r = %r" % (S, r), case, key="C18:MSF:value")
+        x = X[:, 0]
+        for what, q, want in (("x, r0 x", r[0] * x, r[0]), ("x, y", y, (np.dot(y, x) / np.dot(x, x)).real)):
+            s = self.both_forms("MSF", (x, q), case, what)
+            if s is not None:
+                s = np.asarray(s)
+                if s.shape != (1,) or not finite(s) or abs(s[0] - want) > (T + 1e-9) * max(1.0, abs(want)):
+                    ctx.fail("oracle", "gen.MSF(%s) = %r, property says %r (Re((y^T x)/(x^T x)), no conjugation)" % (what, s, want), case,
+                             key="C18:MSF:definition")
+        # the one-argument indicators on a general shape, its multiple, and a collinear shape
+        v = np.round(x.real * 4 + 1) / 4.0
+        if not v.any():
+            v[0] = 1.0
+        for what, P, coll in (("phi", x, False), ("c*phi", c * x, False), ("c*v, v real", c * v, True)):
+            re, im = P.real, P.imag
+            dr, di = re - re.mean(), im - im.mean()
+            cxx, cyy, cxy = float(dr @ dr), float(di @ di), float(dr @ di)
+            sxx, syy, sxy = float(re @ re), float(im @ im), float(re @ im)
+            g = self.both_forms("MPC", (P,), case, what)
+            if g is not None and cxx + cyy > 0:
+                want = ((cxx - cyy) ** 2 + 4 * cxy**2) / (cxx + cyy) ** 2
+                if np.shape(g) != () or not finite(g) or abs(g - want) > 1e-8 or not (-T <= complex(g).real <= 1 + T):
+                    ctx.fail("oracle", "gen.MPC(%s) = %r is not (l0-l1)^2/(l0+l1)^2 of the covariance of (Re, Im) = %r in [0,1]" % (what, g, want), case,
+                             key="C18:MPC:definition")
+            g = self.both_forms("MCF", (P,), case, what)
+            if g is not None:
+                want = 1 - ((sxx - syy) ** 2 + 4 * sxy**2) / (sxx + syy) ** 2
+                if np.shape(g) != (1,) or not finite(g) or abs(np.asarray(g)[0] - want) > 1e-8 or not (-T <= complex(np.asarray(g)[0]).real <= 1 + T):
+                    ctx.fail("oracle", "gen.MCF(%s) = %r is not 1 - ((Sxx-Syy)^2 + 4 Sxy^2)/(Sxx+Syy)^2 = %r in [0,1]" % (what, g, want), case,
+                             key="C18:MCF:definition")
+            g = self.both_forms("MPD", (P,), case, what)
+            if g is not None:
+                if np.shape(g) != () or not finite(g) or abs(complex(g).imag) > T or not (-T <= complex(g).real <= math.pi / 2 + T):
+                    ctx.fail("oracle", "gen.MPD(%s) = %r outside [0, pi/2]" % (what, g), case, key="C18:MPD:bounds")
+                elif coll and abs(g) > 2e-7:
+                    ctx.fail("oracle", "gen.MPD(%s) = %r on a collinear shape, property says 0" % (what, g), case, key="C18:MPD:collinear")
+        # MPC / MCF of the collinear shape
+        P = c * v
+        g, e = call_plain(gen.MCF, P)
+        if e is None and (not finite(g) or abs(np.asarray(g).ravel()[0]) > T):
+            ctx.fail("oracle", "gen.MCF(c*v) = %r on a collinear shape, property says 0" % (g,), case, key="C18:MCF:collinear")
+        if np.ptp(v) > 0:
+            g, e = call_plain(gen.MPC, P)
+            if e is None and (not finite(g) or abs(g - 1) > T):
+                ctx.fail("oracle", "gen.MPC(c*v) = %r on a collinear shape, property says 1" % (g,), case, key="C18:MPC:collinear")
+
     def dispatch(self, case):
-        getattr(self, {"shape": "shape", "mac": "mac", "msf": "msf", "columns": "columns", "large": "large", "many-modes": "many_modes"}[case["kind"]])(case)
+        getattr(self, {"shape": "shape", "mac": "mac", "msf": "msf", "columns": "columns", "large": "large", "many-modes": "many_modes",
+                       "callforms": "callforms"}[case["kind"]])(case)
 
 
 def run(ctx):
@@ -1086,4 +1210,24 @@ def run(ctx):
         R.large(dict(kind="large", seed=int(rng.integers(0, 2**31)), n=int(rng.integers(2, 5)), mX=mX, mA=mA))
     for m in ([257, 300, 513] if ctx.quick() else [2, 255, 256, 257, 300, 513, 1100]):
         R.many_modes(dict(kind="many-modes", seed=int(rng.integers(0, 2**31)), n=int(rng.integers(2, 6)), m=m))
+    # ---- call forms: positional (pristine parameter order) against keyword (pristine names), sets of different sizes
+    for k in range(ctx.n(12, 60)):
+        n = int(rng.integers(3, 10))
+        mX = int(rng.integers(1, 5))
+        mA = int(rng.choice([m for m in range(1, 6) if m != mX]))
+
+        def col():
+            while True:
+                z = gauss(rng, n) + (1 + 1j) / 16.0
+                if abs(np.dot(z, z)) >= 1e-2 * np.vdot(z, z).real:  # away from the known MSF finding (v^T v = 0)
+                    return z
+
+        X = np.stack([col() for _ in range(mX)], axis=1)
+        A = np.stack([col() for _ in range(mA)], axis=1)
+        if k % 3 == 0:  # a column of A collinear with a column of X
+            A[:, -1] = scale_factor(rng) * X[:, int(rng.integers(0, mX))]
+        r = rng.choice([-2.5, -1.5, -0.5, 0.5, 1.5, 2.5, 4.0], size=mX) * 2.0 ** rng.integers(-3, 4, size=mX)
+        r[np.abs(np.abs(r) - 1) < 0.2] = 3.0  # |r| well away from 1: MSF(r v, v) = 1/r differs from r
+        c = scale_factor(rng)
+        R.callforms(dict(kind="callforms", X=cmat(X), A=cmat(A), r=r.tolist(), c=[c.real, c.imag], y=cv(col())))
     R.flush()
